@@ -31,22 +31,22 @@ Print Assumptions C05_exit_enabled.
 (** blocked in PutOne / PutMulti of the flow buffer *)
 Theorem C05_exit_enabled_flow_put : forall g s t,
   g_kind g = Flow -> k_pc (p_calls s t) = PPut -> k_done (p_calls s t) = true -> k_ctxput (p_calls s t) = true ->
-  (g_putfail0 g = true \/ p_st s <> 0) ->
   exists s', pstep g s (LPutFail t) = Some s' /\ k_pc (p_calls s' t) = PRet /\
              k_ret (p_calls s' t) = Some (errs_for (p_calls s t) ECtx) /\ p_q s' = p_q s /\ p_c2s s' = p_c2s s.
 Proof. exact putfail_enabled. Qed.
 Print Assumptions C05_exit_enabled_flow_put.
 
 (** a synchronous call (syncDo / syncDoMulti) whose connection deadline — derived from the context's
-    deadline — has passed: the failure step is enabled, the following decrement never blocks, and the
-    call returns the context error for every command *)
+    deadline — has passed: the failure step is enabled, and from there the caller's own non-blocking steps
+    (the compare-and-swap of leaveSync, or background() and the decrement when others are queued behind it)
+    make it return the context error for every command *)
 Theorem C05_exit_enabled_sync : forall g s t,
   sync_user (p_calls s t) = true -> k_ctx (p_calls s t) = CtxDeadline -> k_done (p_calls s t) = true ->
   exists s1, pstep g s (LSyncFail t true) = Some s1 /\ k_pc (p_calls s1 t) = PDecr true /\
              k_res (p_calls s1 t) = errs_for (p_calls s t) ECtx /\
-             exists s2, pstep g s1 (LDecr t) = Some s2 /\
-                        (k_ret (p_calls s2 t) = Some (errs_for (p_calls s t) ECtx) \/
-                         (k_pc (p_calls s2 t) = PBgAfter /\ k_res (p_calls s2 t) = errs_for (p_calls s t) ECtx)).
+             exists path s2, (path = [LDecr t] \/ path = [LDecr t; LBgAfter t; LDecr t]) /\
+                             prun g path s1 = Some s2 /\
+                             k_ret (p_calls s2 t) = Some (errs_for (p_calls s t) ECtx).
 Proof. exact syncfail_enabled. Qed.
 Print Assumptions C05_exit_enabled_sync.
 
@@ -79,7 +79,6 @@ Print Assumptions C05_retry_skips_when_deadline_sooner.
 (** a call whose context is already done when it starts returns the context error, its commands are
     never put on the wire (neither by itself nor by the writer) and it never owns a queue slot *)
 Theorem C05_done_ctx_sends_nothing : forall g sched s t,
-  g_kind g = Ring \/ g_putfail0 g = false ->
   prun g sched (p_init g) = Some s -> k_donestart (p_calls s t) = true ->
   k_pc (p_calls s t) = PRet /\ ~ In t (p_sent s) /\ ~ In t (map s_owner (q_pend (p_q s) ++ q_wr (p_q s))).
 Proof. exact done_ctx_sends_nothing. Qed.
@@ -89,7 +88,7 @@ Print Assumptions C05_done_ctx_sends_nothing.
     context sends nothing *)
 Definition echo_srv : server := mkSrv (fun c => Msg 36 [c_id c] 0 []) (fun c => []) (fun c => pong_msg).
 Definition plain (id : N) : cmd := mkCmd id 2 false false false false false false.
-Definition cfg : config := mkCfg Ring 4 false 7 echo_srv false.
+Definition cfg : config := mkCfg Ring 4 false 7 echo_srv.
 Definition sched : list label :=
   [LCall 1 [plain 10] false CtxCancel; LIncr 1; LLoad 1; LBg 1; LPut 1; LWNext; LWFlush;
    LCtxDone 1; LAbort 1;
